@@ -123,6 +123,10 @@ def _drive_files(args):
             msgs = [hdr] + msgs[:k] + [trl] + [dict(hdr, DE71=len(msgs) + 3)] + msgs[k:] + [dict(trl, DE71=2 * len(msgs) + 4)]
             n = len(msgs)
         f = drv.new_file()
+        header = b''
+        if tid % 4 >= 2 and not drv.THREADED:
+            header = drv.HEADERS[tid % 3]        # the writer is handed the file positioned behind a header the caller wrote
+            f.write(header)
         events = []
         try:
             if cfgspec[0] == 'pkgvar' and (tid % 2 or tid == ids[0]):
@@ -152,13 +156,16 @@ def _drive_files(args):
                         '_desc': 'writer raised on a well-formed message list'})
             continue
         data = f.getvalue()
+        if header and data[:len(header)] == header:
+            data = data[len(header):]
         events.append(ipmc.iev(1, 'fin'))
         events.append(ipmc.iev(1, 'file', b=data))
         events += ipmc.read_all_events(1, data, codec, bc, blocked)
         for e in events:
             e.pop('_exc', None)
         out.append({'tid': tid, 'loc': True, 'strict': True, 'cols': [], 'insts': [{'blk': blocked}], 'events': events,
-                    '_desc': '%d messages, %s, %s, file of %d bytes' % (n, codec, '1014' if blocked else 'vbs', len(data))})
+                    '_desc': '%d messages, %s, %s, file of %d bytes%s' % (n, codec, '1014' if blocked else 'vbs', len(data),
+                                                                       ' written behind a %d-byte header' % len(header) if header else '')})
     return out
 
 
